@@ -66,7 +66,9 @@ RULE = (
     "poly(none/scores)} x label type {str,int,mixed} in shuffled order: one 'matrices' case each, plus 'encode' cases with random "
     "data (absent levels, nulls, values outside the levels), reduced/full, output pandas/numpy/sparse, via encode_contrasts / C() "
     "encoder / model_matrix, levels explicit / from state / inferred; plus a malformed stream (base not among levels, wrong number "
-    "of scores, duplicate levels, unknown output, empty level list). non-trivial = n >= 3; distinct by canonical JSON"
+    "of scores, duplicate levels, unknown output, empty level list); plus a falsy-reference stream: level lists containing the int 0 / "
+    "the empty string at a non-first position with base= that label, for treatment and SAS, as matrices and through "
+    "encode_contrasts / C() / model_matrix. non-trivial = n >= 3; distinct by canonical JSON"
 )
 
 STR_POOL = ["a", "b", "c", "d", "e", "f", "g", "h", "B", "Z", "aa", "ab", "10", "9", "x y", "é", "T.a", "[q]"]
@@ -135,7 +137,44 @@ def _data(rng, levels, nrows):
     return out
 
 
+def _falsy_cases(rng, tier):
+    """Reference levels whose label is falsy in Python (the int 0, the empty string) and that are NOT the first level:
+    `base=0` / `base=""` must be honoured exactly like any other label (a truthiness test on `base` would silently fall
+    back to the first level). Treatment and SAS, directly (matrices), through encode_contrasts, the C() encoder and
+    model_matrix, with explicit / state / inferred level lists."""
+    sizes = {"quick": [2, 3, 4, 6], "thorough": [2, 3, 4, 5, 7, 12, 25], "search": [2, 3, 5]}[tier]
+    for n in sizes:
+        for ltype in ("int", "str", "mixed"):
+            if ltype == "int":
+                falsy = dict(i=0)
+                others = [dict(i=v) for v in rng.sample([v for v in range(-30, 62) if v not in (0, 9, 10)], n - 1)]
+                if all(o["i"] > 0 for o in others):
+                    others[0] = dict(i=-others[0]["i"])  # a negative level: 0 is not first in sorted order either
+            elif ltype == "str":
+                falsy = dict(s="")
+                others = _labels(rng, n - 1, "str")
+            else:
+                falsy = rng.choice([dict(i=0), dict(s="")])
+                others = [l for l in _labels(rng, n + 1, "mixed") if l != dict(i=0)][: n - 1]
+                if "s" in falsy and not any("i" in o for o in others):
+                    others[0] = dict(i=rng.randint(1, 8))  # numbers sort before strings: "" is not first when inferred
+                if "i" in falsy and not any("i" in o and o["i"] < 0 for o in others):
+                    others[0] = dict(i=-rng.randint(1, 8))
+            pos = rng.randint(1, n - 1)  # never the first position
+            levels = others[:pos] + [falsy] + others[pos:]
+            for k in ("treatment", "SAS"):
+                opt = dict(k=k, base=falsy)
+                yield dict(op="matrices", contrast=opt, levels=levels, ltype=ltype, falsy=True)
+                for how, via in (("arg", "encode"), ("state", "C"), ("arg", "mm"), ("infer", "encode"), ("arg", "C")):
+                    data = list(levels) + _data(rng, levels, rng.randint(2, 5))
+                    rng.shuffle(data)
+                    yield dict(op="encode", contrast=opt, data=data, reduced=rng.random() < 0.75,
+                               output=rng.choice(["pandas", "numpy", "sparse"]), via=via, levels_via=how,
+                               levels=None if how == "infer" else levels, ltype=ltype, falsy=True)
+
+
 def cases(rng, tier):
+    yield from _falsy_cases(rng, tier)
     nmax = {"quick": 12, "thorough": 40, "search": 9}[tier]
     enc_per = {"quick": 2, "thorough": 3, "search": 1}[tier]
     ns = list(range(1, nmax + 1))
@@ -215,7 +254,7 @@ def describe(c):
         name += "(scores)"
     n = len(c["levels"]) if c.get("levels") is not None else len(_infer(c["data"]))
     bucket = "1" if n == 1 else "2" if n == 2 else "3-6" if n <= 6 else "7-12" if n <= 12 else "13+"
-    return f"{c['op']}:{name}:n={bucket}" + (":malformed" if c.get("malformed") else "")
+    return f"{c['op']}:{name}:n={bucket}" + (":malformed" if c.get("malformed") else "") + (":falsy-base" if c.get("falsy") else "")
 
 
 def nontrivial(c):
